@@ -20,6 +20,13 @@ def configs(rng, tier):
                     cs.append({"kind": "actor", "lib": lib, "attr": gen_impl.actor_attr(lib, 2, debut=debut), "item": item, "nmodels": 1,
                                "label": "slf lib=%s debut=%s ret=%s %s" % (lib, debut, ret, recv), "cfg": (lib, debut, ret, recv),
                                "expect": [("fin", debut and compliant)]})
+            # consuming methods with generics / a where-clause of their own: guarded exactly like the others
+            for gsig, ret, compliant in (("fin<T: From<u8>>(self, x: u8)", "Option<T>", True), ("fin<T: From<u8>>(mut self, x: u8)", "Result<T, String>", True),
+                                         ("fin<T>(self, x: T)", "u8", False), ("fin(self, x: u8)", "Option<u8> where Self: Sized", True)):
+                item = "impl A {\n pub fn new() -> Self { todo!() }\n pub fn inc(&mut self) {}\n pub fn %s -> %s { todo!() }\n}" % (gsig, ret)
+                cs.append({"kind": "actor", "lib": lib, "attr": gen_impl.actor_attr(lib, None, debut=debut), "item": item, "nmodels": 1,
+                           "label": "slfgen lib=%s debut=%s sig=%s ret=%s" % (lib, debut, gsig, ret), "cfg": (lib, debut, ret, gsig),
+                           "expect": [("fin", debut and compliant)]})
             # restricted visibilities: an unguarded consuming method is private whatever the user declared, a guarded one keeps its visibility
             for vis in ("pub(crate)", "pub(super)", "pub(in crate)"):
                 for (ret, compliant) in (("u8", False), ("Option<u8>", True), ("Result<u8, std::io::Error>", False)):
